@@ -610,6 +610,8 @@ class Interp(Folder):
         if isinstance(v, Obj) and getattr(v.cls, "is_namedtuple", False) and isinstance(k, int):
             vals = [v.attrs[n] for n, _ in v.cls.fields]
             return _py(lambda: vals[k])
+        if isinstance(v, dict) and isinstance(k, tuple) and k[:1] == ("type-of",) and len(k) == 2 and not isinstance(k[1], (DT, Obj, Term, SymNS, Var, tuple)):
+            k = type(k[1])  # `{int: .., str: ..}[type(value)]` for a python value
         return _py(lambda: v[k])
 
     def _type_eq(self, a, b):
@@ -746,6 +748,20 @@ class Interp(Folder):
             return isinstance(v, spec) and not isinstance(v, (DT, Obj))
         if spec is None:
             return v is None
+        if isinstance(spec, NoOp) and getattr(spec, "abc", None) is not None:
+            # an abstract base class of collections.abc / typing (Iterable, Sequence, Mapping, ..): decided for python values;
+            # interpreted instances define the protocol by their methods
+            if isinstance(v, (Term, SymNS, Var)):
+                raise SymbolicBranch(f"isinstance({v!r}, {spec.name})")
+            if isinstance(v, Obj):
+                need = {"Iterable": ("__iter__",), "Iterator": ("__iter__", "__next__"), "Sized": ("__len__",), "Container": ("__contains__",),
+                        "Hashable": ("__hash__",), "Callable": ("__call__",)}.get(spec.name)  # fmt: skip
+                if need is None:
+                    return False
+                return all(any(n in c.methods for c in v.cls.mro()) for n in need)
+            if isinstance(v, DT):
+                return spec.name == "Hashable"
+            return isinstance(v, spec.abc)
         if isinstance(spec, tuple) and spec[:1] == ("type-of",):
             return v is None if spec[1] is None else self.err(node, "isinstance against type(x)")
         self.err(node, f"isinstance against {spec!r}")
